@@ -3,7 +3,7 @@
 Theorems (lean/Props/C04.lean): `family_step` — a recorded step that satisfies `FamilyGuard` on a valid
 normal-form document is undone exactly by its inverse; `joinGuard_family`, `splitGuard_family`,
 `wrapGuard_family`, `liftGuard_family`, `setNodeMarkupGuard_family`, `setBlockTypeGuard_family` — the steps
-these operations emit satisfy it (up to pair-alignment; for `lift` up to `gapClean`); `opHistory_undo` composes.
+these operations emit satisfy it (up to pair-alignment); `opHistory_undo` composes.
 
 Tie (relational), on every replace / replace-around step a real history records from
 split / join / lift / wrap / set_node_markup / set_block_type: the model evaluates the executable guard
@@ -35,7 +35,7 @@ def expected(op, step):
     if op == "wrap" and around:
         return ("shape", "payload", "hst", "gapClean")      # the planner never proposes a leaf wrapper
     if op == "lift" and around:
-        return ("shape", "payload", "hst")                  # gapClean: hypothesis of liftGuard_family, measured
+        return ("shape", "payload", "hst", "gapClean")      # ranges come from block_range: both ends at child boundaries
     if op in ("set_node_markup", "set_block_type") and around:
         new = step.slice.content.first_child
         if new is not None and not new.is_leaf:
